@@ -559,16 +559,39 @@ def check_span_judgement_width(fx, rep, rule):
         span = tv[1]
         n += 1
         compared = False
+        origins = binding_origins(root)
+
+        def from_width(x):
+            """does the term come from the `width` field of the word being judged (directly, or through `Some(w) = width`)?"""
+            while isinstance(x, tuple) and x[0] in ("ref", "deref") and len(x) > 1:
+                x = x[1]
+            if not (isinstance(x, tuple) and x[0] == "local"):
+                return False
+            if origins.get(x[1]) and origins[x[1]][1] == "width":
+                return True
+            for m_, _ in F.walk(root):
+                pat = m_.get("pat") if isinstance(m_, dict) else None
+                if isinstance(pat, dict) and "init" in m_ and x[1] in F.pat_bindings(pat):
+                    il = None
+                    for y, _ in F.walk(m_["init"]):
+                        if y.get("k") in ("Call", "MethodCall"):
+                            return False  # computed (e.g. the usage's nominal size), not the word's own width
+                        if y.get("k") == "Path" and y.get("res") == "local":
+                            il = y["local"]
+                            break
+                    return il is not None and bool(origins.get(il)) and origins[il][1] == "width"
+            return False
+
         conds = [(T.term(cond, env, mutated), holds) for cond, holds in T.path_conditions(ps, c)]
         for st in T.entailed_atoms(conds):
             if isinstance(st, tuple) and st[0] == "bin" and st[1] == "Eq":
-                for side in (st[2], st[3]):
+                for side, other in ((st[2], st[3]), (st[3], st[2])):
                     x = side
                     while isinstance(x, tuple) and x[0] in ("ref", "deref") and len(x) > 1:
                         x = x[1]
-                    if isinstance(x, tuple) and x[0] == "field" and x[2] == "size" and x[1] == span:
+                    if isinstance(x, tuple) and x[0] == "field" and x[2] == "size" and x[1] == span and from_width(other):
                         compared = True
-        rep.oblige(compared, rule, f"span-judgement-width#{n}", F.loc(c["span"]), "merge judges an operand onto the variable of a span without comparing the span's size with it on the way: a word wider than the span becomes the type of that span (and of every span its variable is equated with), so an entry can describe bits beyond its span and beyond the slot", sample={"rule": rule, "judged": T.short(tv)[:60], "size_compared": compared})
+        rep.oblige(compared, rule, f"span-judgement-width#{n}", F.loc(c["span"]), "merge judges an operand onto the variable of a span without comparing the span's size with the operand's own width on the way: a word wider than the span becomes the type of that span (and of every span its variable is equated with), so an entry can describe bits beyond its span and beyond the slot", sample={"rule": rule, "judged": T.short(tv)[:60], "size_compared": compared})
     rep.floor(rule, n, 1, "operands judged onto a span's variable in merge")
 
 
